@@ -317,6 +317,20 @@ pub fn run(args: &[String]) -> i32 {
         let content: String = c["s"].as_array().map(|a| a.iter().filter_map(|x| x.as_str()).collect::<Vec<_>>().concat()).unwrap_or_default()
             .replace("<MB>", "\u{e9}").replace("<AD>", "\u{661}");
         field_session(&mut rec, &tag, &content);
+        // every shape of the format space that is in the language (other optional parts, alternatives, line
+        // counts, boundary lengths) reaches other code than the typical content: poison these too
+        let label = c["l"].as_str().unwrap_or("");
+        if label != "" && !label.contains('&') && (thorough || c["accept"] == true) {
+            let n = content.chars().count();
+            for pos in 0..n {
+                for (k, p) in [(2usize, "\u{c9}"), (3, "\u{ff11}")].iter().chain(if thorough { [(2usize, "\u{e9}"), (4, "\u{1d400}")].iter() } else { [].iter() }) {
+                    if pos + k <= n {
+                        let t: String = content.chars().take(pos).chain(p.chars()).chain(content.chars().skip(pos + k)).collect();
+                        field_session(&mut rec, &tag, &t);
+                    }
+                }
+            }
+        }
         if c["l"].as_str() == Some("") { per_tag_typical.insert(tag, content); }
     }
     let mut all_field_tags: Vec<String> = FIELD_TAGS.iter().map(|s| s.to_string()).collect();
@@ -444,6 +458,27 @@ pub fn run(args: &[String]) -> i32 {
             json_bases.push((c.mt.clone(), base.clone(), is_full));
         }
         if samples.len() < 3 { samples.push(json!({"mt": c.mt, "base": base})); }
+    }
+
+    // ---- envelopes: block markers and terminators in hostile places, every truncation ----------------
+    {
+        let env_bases: Vec<(&str, String)> = vec![
+            ("103", "{1:F01BANKBEBBAXXX0000000000}{2:I103BANKDEFFXXXXN}{3:{108:MUR-2024-}{121:8a562c65-9a7e-4d8b-8f3a-2b1c5d6e7f80}}{4:\r\n:20:REF123\r\n:23B:CRED\r\n:32A:240719USD1234,56\r\n:50K:/12345678\r\nJOHN DOE\r\n:59:/98765432\r\nJANE SMITH\r\n:70:PAY-}MENT {4: AND {5:\r\n:71A:OUR\r\n-}{5:{CHK:123456789ABC}{TNG}{PDE:1348120811BANKFRPPAXXX2222123456}{MAC:00000000}}".to_string()),
+            ("940", "{1:F01BANKBEBBAXXX0000000000}{2:O9401158240718BANKBEBBAXXX43210987652407191301N}{3:{108:A-}}{4:\r\n:20:REF\r\n:25:/1234567890\r\n:28C:1/1\r\n:60F:C231225USD1234,56\r\n:62F:C231225USD1234,56\r\n-}{5:{CHK:123456789ABC}}".to_string()),
+        ];
+        for (mt, base) in &env_bases {
+            let n = base.chars().count();
+            let mut inputs: Vec<String> = (0..=n).map(|k| base.chars().take(k).collect()).collect();
+            // the same cut with the tail kept (a block lost from the front)
+            for k in (0..n).step_by(if thorough { 1 } else { 7 }) { inputs.push(base.chars().skip(k).collect()); }
+            for input in inputs {
+                with_mt!(*mt, T => message_session::<T>(&mut rec, &input), else ());
+            }
+        }
+        for t in ["-}{4:", "{3:{108:A-}}{4:", "x-}{1:F01}{4:\n:20:REF\n-", "{4:-}", "{4:\r\n-}{4:", "}}}}", "{5:{4:-}", "{4:{4:{4:", "-}-}-}", "{1:{2:{3:{4:{5:",
+                  "{1:F01BANKBEBBAXXX0000000000}{2:I103BANKDEFFXXXXN}{3:{108:-}}{4:", "{2:I103BANKDEFFXXXXN}-}{1:F01BANKBEBBAXXX0000000000}{4:\r\n:20:A"] {
+            with_mt!("103", T => message_session::<T>(&mut rec, t), else ());
+        }
     }
 
     // ---- JSON given from outside: every string leaf of a valid message's JSON made hostile ----------
